@@ -29,3 +29,24 @@ if a in s and b in s:
     s = s[:s.index(a) + len(a)] + '\n' + '\n'.join(table) + '\n' + s[s.index(b):]
     open(p, 'w').write(s)
 print('\n'.join(table[:2]))
+# benign table
+rows = []
+nsilent = 0
+for d in sorted(glob.glob(os.path.join(V, 'benign', '*'))):
+    mp = os.path.join(d, 'meta.json')
+    if not os.path.exists(mp):
+        continue
+    m = json.load(open(mp))
+    det = m.get('checks_on_changed_tree', {})
+    summ = re.sub(r'\s+', ' ', m.get('summary', ''))[:170].replace('|', '/')
+    res = ', '.join(f"{k}:{'VIOLATION' if v['outcome'] == 'VIOLATION' else 'refused'}" for k, v in sorted(det.items())) or 'silent in all 20 checks'
+    nsilent += 0 if det else 1
+    rows.append(f"| {os.path.basename(d)} | {summ} | {res} |")
+bt = [f"{len(rows)} confirmed behaviour-preserving changes; {nsilent} leave all 20 checks silent.", '',
+      '| change | what was rewritten (sub-agent\'s summary) | checks |', '|---|---|---|'] + rows
+s = open(p).read()
+a, b = '<!-- BENIGN-TABLE-BEGIN -->', '<!-- BENIGN-TABLE-END -->'
+if a in s and b in s:
+    s = s[:s.index(a) + len(a)] + '\n' + '\n'.join(bt) + '\n' + s[s.index(b):]
+    open(p, 'w').write(s)
+print(bt[0])
